@@ -75,3 +75,115 @@ Section WriterProofs.
   Qed.
 End WriterProofs.
 Print Assumptions write_to_contract.
+
+(* ---- size-dependent items: the run against any contract-obeying writer delivers a prefix of the
+   text the same items give on an all-accepting writer ---- *)
+Section WriterItemsProofs.
+  Variable W : Type.
+  Variable write : W -> bytes -> W * nat * bool.
+  Hypothesis write_contract : forall w p, let '(_, n, failed) := write w p in
+    n <= length p /\ (n < length p -> failed = true).
+  Notation fw_item := (fw_item W write).
+
+  (* while no error is latched the state mirrors the buffer run; once one is latched nothing changes *)
+  Lemma items_run items : forall s printed,
+    fw_size W s = length (fw_delivered W s) ->
+    (fw_err W s = None -> fw_delivered W s = printed) ->
+    (exists rest, text_of printed items = fw_delivered W s ++ rest) ->
+    let s' := fold_left fw_item items s in
+    fw_size W s' = length (fw_delivered W s')
+    /\ (exists rest, text_of printed items = fw_delivered W s' ++ rest)
+    /\ (fw_err W s' = None -> fw_delivered W s' = text_of printed items).
+  Proof.
+    induction items as [|i r IH]; intros s printed Hs Hn Hp; cbn [fold_left text_of].
+    - cbn zeta. split; [exact Hs|]. split; [exact Hp|]. exact Hn.
+    - destruct (fw_err W s) as [e|] eqn:E.
+      + (* latched: nothing is written any more *)
+        assert (forall l, fold_left fw_item l s = s) as L.
+        { induction l as [|j l IHl]; cbn [fold_left]; [reflexivity|].
+          assert (fw_item s j = s) as ->; [|exact IHl].
+          destruct j; cbn [Writer.fw_item]; [apply (latched W write s p e E)|].
+          destruct (Nat.ltb 0 (fw_size W s)); [apply (latched W write s p e E)|reflexivity]. }
+        assert (fw_item s i = s) as -> by (apply (L [i])). rewrite L. cbn zeta.
+        split; [exact Hs|]. split; [|rewrite E; discriminate].
+        (* the delivered bytes are a prefix of printed, hence of the final text *)
+        destruct Hp as [rest Hp]. exists rest. exact Hp.
+      + specialize (Hn eq_refl).
+        assert (forall p, let s1 := fw_print W write s p in
+                  fw_size W s1 = length (fw_delivered W s1)
+                  /\ (fw_err W s1 = None -> fw_delivered W s1 = printed ++ p)
+                  /\ exists q, printed ++ p = fw_delivered W s1 ++ q) as Step.
+        { intros p. cbn zeta. unfold Writer.fw_print. rewrite E.
+          pose proof (write_contract (fw_w W s) p) as C.
+          destruct (write (fw_w W s) p) as [[w' n] failed]. destruct C as [C1 C2]. cbn.
+          split; [rewrite app_length, firstn_length_le by exact C1; lia|]. split.
+          - destruct failed; [discriminate|]. intros _.
+            assert (n = length p) as -> by (destruct (Nat.lt_ge_cases n (length p)) as [L|L]; [specialize (C2 L); discriminate | lia]).
+            rewrite firstn_all, Hn. reflexivity.
+          - exists (skipn n p). rewrite Hn, <- app_assoc, firstn_skipn. reflexivity. }
+        assert (forall l p' q, p' = q -> exists rest, text_of p' l = q ++ rest) as Pref.
+        { induction l as [|j l IHl]; intros p' q ->; cbn [text_of]; [exists []; rewrite app_nil_r; reflexivity|].
+          destruct j.
+          - destruct (IHl (q ++ p) (q ++ p) eq_refl) as [rest R]. exists (p ++ rest). rewrite R, app_assoc. reflexivity.
+          - destruct (Nat.ltb 0 (length q)); [|apply IHl; reflexivity].
+            destruct (IHl (q ++ p) (q ++ p) eq_refl) as [rest R]. exists (p ++ rest). rewrite R, app_assoc. reflexivity. }
+        assert (forall l p' d q, p' = d ++ q -> exists rest, text_of p' l = d ++ rest) as Pref2.
+        { intros l p' d q ->. destruct (Pref l (d ++ q) (d ++ q) eq_refl) as [rest R]. exists (q ++ rest). rewrite R, app_assoc. reflexivity. }
+        destruct i as [p|p]; cbn [Writer.fw_item].
+        * destruct (Step p) as (S1 & S2 & [q S3]). apply IH; [exact S1|exact S2|]. eapply Pref2. exact S3.
+        * rewrite Hs, Hn. cbn [text_of] in Hp. destruct (Nat.ltb 0 (length printed)) eqn:L.
+          -- destruct (Step p) as (S1 & S2 & [q S3]). apply IH; [exact S1|exact S2|]. eapply Pref2. exact S3.
+          -- apply IH; [exact Hs|intros _; exact Hn|exact Hp].
+  Qed.
+
+  Theorem write_to_items_contract w items :
+    let s := run_items W write w items in
+    let text := text_of [] items in
+    fw_size W s = length (fw_delivered W s)
+    /\ fw_delivered W s = firstn (fw_size W s) text
+    /\ (fw_err W s = None -> fw_delivered W s = text).
+  Proof.
+    cbn zeta. unfold run_items.
+    assert (fw_size W (fw_init W w) = length (fw_delivered W (fw_init W w))) as A1 by reflexivity.
+    assert (fw_err W (fw_init W w) = None -> fw_delivered W (fw_init W w) = []) as A2 by (intros _; reflexivity).
+    assert (exists rest, text_of [] items = fw_delivered W (fw_init W w) ++ rest) as A3 by (exists (text_of [] items); reflexivity).
+    destruct (items_run items (fw_init W w) [] A1 A2 A3) as (H1 & [rest H2] & H3).
+    split; [exact H1|]. split; [|exact H3].
+    rewrite H1, H2, firstn_app, Nat.sub_diag, firstn_all. cbn. rewrite app_nil_r. reflexivity.
+  Qed.
+End WriterItemsProofs.
+
+(* the failing writers of the correspondence leg obey the io.Writer contract *)
+Lemma fail_after_contract k : forall w p, let '(_, n, failed) := fail_after k w p in
+  n <= length p /\ (n < length p -> failed = true).
+Proof.
+  intros w p. unfold fail_after. destruct (Nat.leb_spec (w + length p) k); cbn; split; try lia; reflexivity.
+Qed.
+
+(* a writer failing after k bytes receives exactly the first k bytes of the text *)
+Theorem fail_after_delivers_prefix k items :
+  let s := run_items nat (fail_after k) 0 items in
+  let text := text_of [] items in
+  fw_delivered nat s = firstn (fw_size nat s) text /\ fw_size nat s <= k
+  /\ (fw_err nat s = None -> fw_delivered nat s = text).
+Proof.
+  cbn zeta. destruct (write_to_items_contract nat (fail_after k) (fail_after_contract k) 0 items) as (H1 & H2 & H3).
+  split; [exact H2|]. split; [|exact H3].
+  (* the writer state is the number of bytes accepted and never exceeds k *)
+  unfold run_items.
+  assert (forall l s, fw_w nat s = fw_size nat s -> fw_size nat s <= k ->
+            let s' := fold_left (Writer.fw_item nat (fail_after k)) l s in fw_w nat s' = fw_size nat s' /\ fw_size nat s' <= k) as G.
+  { induction l as [|i l IHl]; intros s Hw Hk; cbn [fold_left]; [split; assumption|].
+    assert (fw_w nat (fw_print nat (fail_after k) s (match i with Always p | IfNonEmpty p => p end)) =
+            fw_size nat (fw_print nat (fail_after k) s (match i with Always p | IfNonEmpty p => p end))
+            /\ fw_size nat (fw_print nat (fail_after k) s (match i with Always p | IfNonEmpty p => p end)) <= k) as [A B].
+    { generalize (match i with Always p | IfNonEmpty p => p end). intros q.
+      unfold Writer.fw_print. destruct (fw_err nat s); [split; assumption|]. unfold fail_after. rewrite Hw.
+      destruct (Nat.leb_spec (fw_size nat s + length q) k); cbn [fw_w fw_size]; split; lia. }
+    destruct i as [p|p]; cbn [Writer.fw_item].
+    - apply IHl; assumption.
+    - destruct (Nat.ltb 0 (fw_size nat s)); apply IHl; assumption. }
+  apply (G items (fw_init nat 0)); cbn; lia.
+Qed.
+Print Assumptions write_to_items_contract.
+Print Assumptions fail_after_delivers_prefix.
